@@ -231,6 +231,31 @@ func c18Tags(c *core.Ctx, lo, hi int) {
 			if gwt != wt || gidx != idx || gn != len(b)-1 {
 				c.Rec.Violation("tag-read", fmt.Sprintf("ReadTag(%x) = (wt %d, index %d, n %d) want (%d,%d,%d)", b[1:], gwt, gidx, gn, wt, idx, len(b)-1), nil)
 			}
+			// the result belongs to the caller, whatever the destination was (nil, empty with room, empty
+			// without): the field is appended onto it, and tags asked for afterwards are what they were
+			for k, dst := range [][]byte{nil, make([]byte, 0, 32), {}} {
+				t := plenccore.AppendTag(dst, wt, idx)
+				if !bytes.Equal(t, want[1:]) {
+					c.Rec.Violation("tag-bytes", fmt.Sprintf("AppendTag(destination %d, wt=%d,index=%d) = %x want %x", k, wt, idx, t, want[1:]), nil)
+					break
+				}
+				t = append(t, 0xAA, 0xAA, 0xAA, 0xAA, 0xAA, 0xAA, 0xAA, 0xAA, 0xAA, 0xAA, 0xAA, 0xAA, 0xAA, 0xAA, 0xAA, 0xAA, 0xAA, 0xAA, 0xAA, 0xAA)
+				bad := false
+				for d := 0; d <= 20 && !bad; d++ {
+					tv := uint64(idx)<<3 | uint64(wt) + uint64(d)
+					if tv>>3 >= 1<<61 {
+						break
+					}
+					again := plenccore.AppendTag(nil, plenccore.WireType(tv&7), int(tv>>3))
+					if w := refAppendUvarint(nil, tv); !bytes.Equal(again, w) {
+						c.Rec.Violation("tag-bytes", fmt.Sprintf("after a field was appended onto the result of AppendTag(destination %d, wt=%d, index=%d), AppendTag(nil, wt=%d, index=%d) = %x want %x", k, wt, idx, tv&7, tv>>3, again, w), nil)
+						bad = true
+					}
+				}
+				if bad {
+					break
+				}
+			}
 			// a tag is followed by its field: the same tag with 1, 3 and 9 more bytes behind it
 			for _, tail := range [][]byte{{0x00}, {0xff, 0x01, 0x80}, {0x80, 0x80, 0x80, 0x80, 0x80, 0x80, 0x80, 0x80, 0x01}} {
 				in := append(append([]byte(nil), b[1:]...), tail...)
